@@ -43,6 +43,8 @@ ASSUMPTIONS = [
     "without any model",
     "the module global `math` of type_checker.py is wrapped so that math.isnan(<int or Fraction>) is False without conversion",
     "hash-consing tables keyed syntactically (S2')",
+    "an expression on which get_fluents raises ZeroDivisionError is outside the claim iff the solver shows that it has no value in any "
+    "state (a divisor that is identically 0 once static fluents are replaced by their values)",
     "a constant divisor is a concrete integer from the pool -3, -1, 2, 5 and in an expression with a division no parameter is point-typed "
     "(exact Fraction division of the type bounds by a SYMBOLIC integer loops in gcd under CrossHair); divisor sub-expressions "
     "built from parameters and constants are unrestricted; a divisor of point type 0 is not well-formed (ZeroDivisionError "
@@ -247,6 +249,22 @@ def _mono_violation(e, fexp, increasing, pins):
     return cond, qv
 
 
+def _defined_somewhere(e, pins):
+    """z3: an interpretation within the declared types (static fluents pinned) under which e has a value"""
+    import z3
+
+    from vf.exprsem import ExprSem
+    from vf.refsem import znum
+
+    I = ExprSem()
+    I.term(e)
+    cond = z3.And(I.domain(), I.defined())
+    for leaf, val in pins.items():
+        if leaf in I.leaves:
+            cond = z3.And(cond, I.leaves[leaf][0] == znum(val))
+    return cond, {n: x for n, (x, _t) in I.leaves.items()}
+
+
 def h_linear(ctx, shape, combos=None, kinds=None, op_lists=None, ops=None, sym_fluent_bounds=False):
     from unified_planning.exceptions import UPTypeError
     from unified_planning.model.walkers import LinearChecker, Simplifier
@@ -278,7 +296,17 @@ def h_linear(ctx, shape, combos=None, kinds=None, op_lists=None, ops=None, sym_f
     skel = "".join(text)
     ctx.note("skeleton", skel)
     checker = LinearChecker(w.problem)
-    res = checker.get_fluents(e)
+    try:
+        res = checker.get_fluents(e)
+    except ZeroDivisionError:
+        # get_fluents simplifies with the problem's static values first; a divisor such as f * s with the static fluent s == 0, or
+        # f * 0 over an unbounded f, is identically 0 and the simplifier refuses the division.  That is outside the claim exactly
+        # when the expression has no value in ANY state -- decided by the solver; a ZeroDivisionError on an expression that has a
+        # value somewhere is reported
+        ctx.forall(lambda: _defined_somewhere(e, w.static_value), None, "crash:zero-division-on-defined-expression",
+                   f"{skel}: get_fluents raises ZeroDivisionError although the expression has a value in some state")
+        ctx.witness("undefined-everywhere")
+        return
     ctx.check(isinstance(res, tuple) and len(res) == 3, "result-shape", f"get_fluents returned {type(res).__name__}")
     is_linear, pos, neg = res
     ctx.check(isinstance(is_linear, bool), "result-shape", "is_linear is not a bool")
